@@ -39,7 +39,8 @@ SRCS = [None, 'x = g(1)']
 SRCS_X = ['return d["k: v"]', 'File = open("p", line)', 'raise E("in f")']
 TYPES = ['E', 'a.b.E']
 MSGS = [('empty message', ''), ('one-line message', 'boom'), ('message containing ": "', 'k: v'),
-        ('two-line message', 'l1\nl2'), ('message with a line that looks like a frame', 'l1\n  File "x.py", line 1, in f')]
+        ('two-line message', 'l1\nl2'), ('message with a line that looks like a frame', 'l1\n  File "x.py", line 1, in f'),
+        ('message with an interior line that looks like an "Exception ... ignored" note', 'l1\nException in f ignored\nl3')]
 MSGS_X = [('message with trailing blanks', 'boom  '), ('message with an indented and a blank line', 'l1\n\n    l3'),
           ('message that looks like a marker line', '^^^')]
 LINENOS = [7, 42, 1234]
@@ -456,6 +457,43 @@ def part_pseudo_files(H):
         linecache.cache.pop(fname, None)
 
 
+def part_explicit_traceback(H):
+    """from_exc_info(type, value, tb) must describe the traceback it is GIVEN - as traceback.extract_tb(tb) does - also when
+    that is not value.__traceback__ any more: exc_info captured in an inner handler and the exception re-raised through more
+    frames before it is rendered, or a caller passing tb.tb_next to skip its own frame"""
+    def lvl3():
+        raise KeyError('k3')
+
+    def lvl2():
+        try:
+            lvl3()
+        except KeyError:
+            captured.append(sys.exc_info())
+            raise
+
+    def lvl1():
+        lvl2()
+    captured = []
+    try:
+        lvl1()
+    except KeyError:
+        outer = sys.exc_info()
+    cases = [('exc_info captured in an inner handler, exception re-raised afterwards', captured[0]),
+             ('tb.tb_next passed to skip the first frame', (outer[0], outer[1], outer[2].tb_next)),
+             ('the current traceback', outer)]
+    for label, (et, ev, tb) in cases:
+        H.ev(key=('explicit-tb', label), nontrivial=True, part='live_explicit_traceback', sample=label)
+        wc = 'traceback argument that is not value.__traceback__' if tb is not ev.__traceback__ else 'current traceback'
+        ok, ei = H.guard(lambda: tbutils.ExceptionInfo.from_exc_info(et, ev, tb), 'frames_equal_traceback_module',
+                         'ExceptionInfo.from_exc_info', wc + '; raises', label)
+        if not ok:
+            continue
+        fr = [(c.module_path, c.lineno, c.func_name) for c in ei.tb_info.frames]
+        std = [(f.filename, f.lineno, f.name) for f in traceback.extract_tb(tb)]
+        H.check(fr == std, 'frames_equal_traceback_module', 'ExceptionInfo.from_exc_info', wc, label,
+                'frames %r, traceback.extract_tb(tb) %r' % (fr, std))
+
+
 def run():
     H = Harness('C16',
                 rule='one evaluation = one rendered traceback text through from_string/to_string (non-trivial: at least one frame '
@@ -474,6 +512,7 @@ def run():
             part_edited_source(H, tmp)
             part_loader_source(H)
             part_pseudo_files(H)
+            part_explicit_traceback(H)
         if H.args.part in (None, 'texts'):
             part_texts(H)
     finally:
